@@ -728,6 +728,25 @@ func (p *Prog) mergedExits(x *TX, ret *ssa.Return) []mergedExit {
 	if !uses {
 		return nil
 	}
+	// when the block does more than return, the split is by the error result only (the verdict
+	// differs by edge) and the block itself must not call anything: then "reaching the exit" and
+	// "reaching the predecessor's jump" are the same event for every effect rule
+	pure := true
+	for _, in := range b.Instrs {
+		switch in.(type) {
+		case *ssa.Phi, *ssa.Return, *ssa.DebugRef:
+		case ssa.CallInstruction:
+			return nil
+		default:
+			pure = false
+		}
+	}
+	if !pure {
+		ev := errResult(ret)
+		if phi, ok := ev.(*ssa.Phi); !ok || phi.Block() != b {
+			return nil
+		}
+	}
 	var out []mergedExit
 	for i, pred := range b.Preds {
 		me := mergedExit{pred: pred, at: ret}
